@@ -125,6 +125,12 @@ def xattr_cases(tier):
             out.append(("xattr-%s-%s" % (style, k.decode()), [tarmk_E(b"x", "file", content=b"x", xattrs={k: v}, xattr_style=style)], "pax"))
         out.append(("xattr-%s-on-dir-and-link" % style, [tarmk_E(b"d", "dir", xattrs={b"user.d": b"1"}, xattr_style=style),
                                                          tarmk_E(b"d/l", "slink", target=b"t", xattrs={b"user.l": b"2"}, xattr_style=style)], "pax"))
+        # PAX record length prefix counts its own digits: value lengths around the points where the record length gains a digit (99/100, 999/1000, 9999/10000)
+        for lo, hi in (((60, 82), (955, 985)) if tier == "quick" else ((55, 90), (950, 990), (9950, 9990))):
+            vl = list(range(lo, hi))
+            for i in range(0, len(vl), 10):
+                ents = [tarmk_E(b"x%05d" % n, "file", content=b"x", xattrs={b"user.comment": (b"abcdefghij" * (n // 10 + 1))[:n]}, xattr_style=style) for n in vl[i:i + 10]]
+                out.append(("xattr-%s-valuelen-%d..%d" % (style, vl[i], vl[min(i + 9, len(vl) - 1)]), ents, "pax"))
         out.append(("xattr-%s-shared" % style, [tarmk_E(b"a", "file", content=b"a", xattrs={b"user.s": b"S" * 100}, xattr_style=style),
                                                 tarmk_E(b"b", "file", content=b"b", xattrs={b"user.s": b"S" * 100}, xattr_style=style)], "pax"))
     return out
